@@ -26,8 +26,8 @@ Bool(b) == [t |-> "bool", b |-> b]
 Arr(i)  == [t |-> "arr", id |-> i]
 Obj(i)  == [t |-> "obj", id |-> i]
 IsCont(v)   == v.t \in {"arr", "obj"}
-IsAbsent(v) == v.t \in {"missing", "unset"}
-Stored(v)   == IF v.t = "missing" THEN Null ELSE v
+IsAbsent(v) == v.t \in {"missing", "unset", "fresh"}
+Stored(v)   == IF v.t \in {"missing", "fresh"} THEN Null ELSE v
 
 (* Selectors and paths: x.k[2] is Path("x", <<K("k"), I(2)>>) *)
 K(k) == [s |-> "key", k |-> k]
@@ -216,10 +216,11 @@ ListSort(h, id, rk) ==
 (* entry = [k |-> "object", m] | [k |-> "slots", s |-> Seq(cell id or 0)]    *)
 (*       | [k |-> "cell", v |-> Value]                                       *)
 SpecNull == [t |-> "specnull"]   \* the null a padding read leaves at the index it asked for
+Fresh    == [t |-> "fresh"]      \* the same while the statement that padded is still running (absent for its store)
 GHdr(bk, n, c) == [t |-> "arr", id |-> bk, len |-> n, cap |-> c]
 GAlloc(st, e) == [st EXCEPT !.heap = Append(@, e)]
 GView(st, h) == SubSeq(st.heap[h.id].s, 1, h.len)
-GCopy(v) == IF v.t \in {"specnull", "missing"} THEN Null ELSE v        \* copyValue
+GCopy(v) == IF v.t \in {"specnull", "missing", "fresh"} THEN Null ELSE v        \* copyValue
 GFail(st, why) == [st |-> st, val |-> Null, res |-> Null, status |-> why]
 
 \* how many headers in the state look at backing bk
@@ -274,12 +275,12 @@ GReadAt(st, cur, sels, pads) ==
       ELSE LET r == GReadAt(st, m[sel.k], rest, pads)
            IN IF r.status # "ok" THEN r
               ELSE [st |-> [r.st EXCEPT !.heap[cur.id].m[sel.k] = r.val], val |-> cur, res |-> r.res, status |-> "ok"]
-  ELSE IF cur.t \in {"null", "missing", "unset", "specnull"} THEN [st |-> st, val |-> cur, res |-> Missing, status |-> "ok"]
+  ELSE IF cur.t \in {"null", "missing", "unset", "specnull", "fresh"} THEN [st |-> st, val |-> cur, res |-> Missing, status |-> "ok"]
   ELSE GFail(st, "open")
 
 GReadPath(st, p, pads) ==
   LET r == GReadAt(st, st.env[p.base], p.sels, pads)
-  IN IF r.status # "ok" THEN r ELSE [r EXCEPT !.st.env[p.base] = r.val, !.res = GCopy(r.res)]
+  IN IF r.status # "ok" THEN r ELSE [r EXCEPT !.st.env[p.base] = r.val]
 
 RECURSIVE GAssignAt(_, _, _, _)
 GAssignAt(st, cur, sels, v) ==
